@@ -274,6 +274,22 @@ pub struct ExtCfg {
     pub max_stmts: usize,
 }
 
+/// What a generated callee body may use (all integer variables have the type `it`).
+pub struct CallScope {
+    /// "function:d1" | "function:d2" | "method:d1" | "method:d2" | "fb_body:d1" | ...
+    pub ctx: &'static str,
+    pub it: T,
+    /// Inputs first (index 0 is an input), then locals / temporaries / result.
+    pub readable: Vec<String>,
+    pub writable: Vec<String>,
+    pub locals: Vec<String>,
+    pub bools: Vec<String>,
+    pub bool_w: Vec<String>,
+    pub guard: String,
+    pub ctrl: String,
+    pub callables: Vec<&'static str>,
+}
+
 pub struct Ext<'t> {
     r: Reader<'t>,
     cfg: ExtCfg,
@@ -551,7 +567,13 @@ impl<'t> Ext<'t> {
         let mut parts = Vec::new();
         for (lo, hi) in dims {
             let t = self.any_int();
-            let vs = self.vars_of(t);
+            // not the base program's CONSTANTs: `(k0 + 3)` is folded by the checker (E304)
+            let vs: Vec<String> = self
+                .vars
+                .iter()
+                .filter(|v| v.ty == t && (v.writable || v.name == "xcyc"))
+                .map(|v| v.name.clone())
+                .collect();
             let p = match self.r.weighted(&[if vs.is_empty() { 0 } else { 5 }, 4, 2]) {
                 0 => vs[self.r.pick(vs.len())].clone(),
                 1 => {
@@ -615,8 +637,18 @@ impl<'t> Ext<'t> {
             1 => {
                 self.feat("std:MUX");
                 let kt = self.any_int();
-                let k = self.expr(kt, d.min(1));
-                if self.r.flag() {
+                let three = self.r.flag();
+                let n_in: i128 = if three { 3 } else { 2 };
+                // the selector hits exactly 0, n-1, n, n+1 (and -1) half of the time
+                let k = if self.r.flag() {
+                    let (lo, hi) = kt.elem().unwrap().int_range();
+                    let v = [n_in - 1, n_in, n_in + 1, 0, -1][self.r.pick(5)];
+                    self.feat(&format!("std:MUX:k={}", if v == n_in { "n" } else if v == n_in - 1 { "n-1" } else if v == n_in + 1 { "n+1" } else if v == 0 { "0" } else { "-1" }));
+                    int_lit(kt, v.max(lo).min(hi))
+                } else {
+                    self.expr(kt, d.min(1))
+                };
+                if three {
                     let c = self.expr(t, d);
                     format!("MUX({k}, {a}, {b}, {c})")
                 } else {
@@ -1264,14 +1296,315 @@ impl<'t> Ext<'t> {
         self.out.main_vars.push_str(&text);
     }
 
-    /// Extra POUs: a FUNCTION whose local initialiser can fault, a FUNCTION with EN/ENO, a
-    /// class and an FB hierarchy with methods (THIS / SUPER, faulting method locals), an FB
-    /// with a faulting VAR_TEMP initialiser (instantiated in Main, optionally task-associated).
+    // ------------------------------------------------------------------ call web
+    //
+    // Extra POUs. Every call shape (EN/ENO with EN constant TRUE / FALSE / input dependent /
+    // computed, ENO bound or not, named / positional, defaulted input, VAR_OUTPUT and
+    // VAR_IN_OUT bindings, nested calls as arguments, calls in IF / WHILE conditions, FOR
+    // headers and CASE selectors, callees whose initialisers fault, method calls through
+    // THIS / SUPER, FB invocations) is generated not only in Main but inside FUNCTION bodies,
+    // METHOD bodies and FB bodies at call depth 1 and 2, and the caller reads and writes its
+    // own inputs, locals, VAR_TEMPs and result AFTER each call.
+    //
+    //   Main -> XTop (function, depth 1) -> XMid (function, depth 2) -> XEn / XFn / XOut
+    //   Main -> xcls.Bump (method, 1) -> THIS.Helper (method, 2) -> leaves
+    //   Main -> xder.Stp (method, 1) -> SUPER.Stp (method, 2) -> leaves
+    //   Main -> xouter() (FB body, 1) -> inner() = XBase body (FB body, 2) -> leaves / XMid
+    //   Main -> xouter.Run (method, 1) -> inner() (FB body, 2)
+
+    fn sc_lit(&mut self, it: T) -> String {
+        let (lo, hi) = it.elem().unwrap().int_range();
+        let v: i128 = match self.r.weighted(&[10, 2]) {
+            0 => [0i128, 1, 2, 3, 5][self.r.pick(5)],
+            _ => [hi, lo, hi - 1, -1, 100][self.r.pick(5)],
+        };
+        int_lit(it, v.max(lo).min(hi))
+    }
+
+    fn sc_expr(&mut self, sc: &CallScope) -> String {
+        match self.r.weighted(&[6, 3, 1]) {
+            0 => sc.readable[self.r.pick(sc.readable.len())].clone(),
+            1 => self.sc_lit(sc.it),
+            _ => {
+                let a = sc.readable[self.r.pick(sc.readable.len())].clone();
+                let l = self.sc_lit(sc.it);
+                let op = ["+", "-", "*"][self.r.pick(3)];
+                format!("({a} {op} {l})")
+            }
+        }
+    }
+
+    /// EN argument: constant TRUE / FALSE, input dependent, computed. Returns (text, label).
+    fn sc_en(&mut self, sc: &CallScope) -> (String, &'static str) {
+        let wb = if sc.bools.is_empty() { 0 } else { 4 };
+        match self.r.weighted(&[4, 2, wb, if wb > 0 { 1 } else { 0 }, 2, 1]) {
+            0 => ("FALSE".into(), "en_const_false"),
+            1 => ("TRUE".into(), "en_const_true"),
+            2 => (sc.bools[self.r.pick(sc.bools.len())].clone(), "en_input"),
+            3 => (format!("NOT {}", sc.bools[self.r.pick(sc.bools.len())]), "en_input_negated"),
+            4 => {
+                let a = self.sc_expr(sc);
+                let b = self.sc_expr(sc);
+                (format!("({a} > {b})"), "en_computed")
+            }
+            _ => {
+                let a = sc.readable[self.r.pick(sc.readable.len())].clone();
+                (format!("({a} <> {a})"), "en_computed_false")
+            }
+        }
+    }
+
+    fn sc_w(&mut self, sc: &CallScope) -> String {
+        sc.writable[self.r.pick(sc.writable.len())].clone()
+    }
+
+    /// The caller touches its own inputs / locals / temporaries / result after a call.
+    fn sc_use(&mut self, sc: &CallScope, out: &mut Vec<String>) {
+        let n = 1 + self.r.pick(2);
+        for _ in 0..n {
+            let w = self.sc_w(sc);
+            let r1 = sc.readable[self.r.pick(sc.readable.len())].clone();
+            let r2 = sc.readable[self.r.pick(sc.readable.len())].clone();
+            let s = match self.r.weighted(&[4, 3, 2, 1, 2]) {
+                0 => format!("{w} := {r1};"),
+                1 => format!("{w} := {}({r1}, {r2});", if self.r.flag() { "MAX" } else { "MIN" }),
+                2 if !sc.bools.is_empty() => {
+                    let b = sc.bools[self.r.pick(sc.bools.len())].clone();
+                    format!("{w} := SEL({b}, {r1}, {r2});")
+                }
+                3 => format!("{w} := {r1} + {r2};"),
+                _ => format!("IF {r1} >= {r2} THEN {w} := {r2}; END_IF;"),
+            };
+            out.push(s);
+        }
+        // always read one INPUT (or first readable) into a writable after the call
+        let w = self.sc_w(sc);
+        out.push(format!("{w} := {};", sc.readable[0]));
+    }
+
+    /// A call of the EN/ENO leaf as an expression (formal call).
+    fn sc_en_call(&mut self, sc: &CallScope, labels: &mut Vec<String>) -> String {
+        let (en, l) = self.sc_en(sc);
+        labels.push(l.to_string());
+        let a = self.sc_expr(sc);
+        if !sc.bool_w.is_empty() && self.r.chance(2, 3) {
+            labels.push("eno_bound".into());
+            let ok = sc.bool_w[self.r.pick(sc.bool_w.len())].clone();
+            format!("XEn(EN := {en}, a := {a}, ENO => {ok})")
+        } else {
+            labels.push("eno_unbound".into());
+            format!("XEn(EN := {en}, a := {a})")
+        }
+    }
+
+    /// `n` units of (call in some shape; use of the caller's own variables afterwards).
+    fn call_units(&mut self, sc: &CallScope, n: usize) -> Vec<String> {
+        let mut out = Vec::new();
+        for _ in 0..n {
+            let mut labels: Vec<String> = Vec::new();
+            let w = self.sc_w(sc);
+            let has = |c: &str| sc.callables.iter().any(|x| *x == c);
+            // weights per shape; unavailable callees get weight 0
+            let wt = [
+                6,                                   // 0 XEn assignment
+                3,                                   // 1 XEn inside an expression
+                2,                                   // 2 XFn positional / named
+                3,                                   // 3 XOut (named, default omitted, out / in_out)
+                2,                                   // 4 XOut positional
+                2,                                   // 5 nested calls as arguments
+                3,                                   // 6 call in IF condition
+                2,                                   // 7 call in WHILE condition
+                2,                                   // 8 call in FOR header
+                2,                                   // 9 call in CASE selector
+                if has("XMid") { 5 } else { 0 },     // 10 XMid (function with calls inside)
+                if has("THIS.Helper") { 5 } else { 0 }, // 11
+                if has("SUPER.Stp") { 5 } else { 0 },   // 12
+                if has("inner") { 6 } else { 0 },       // 13 FB invocation
+                2,                                   // 14 call statement, result discarded
+            ];
+            match self.r.weighted(&wt) {
+                0 => {
+                    let c = self.sc_en_call(sc, &mut labels);
+                    out.push(format!("{w} := {c};"));
+                }
+                1 => {
+                    labels.push("in_expression".into());
+                    let c = self.sc_en_call(sc, &mut labels);
+                    let r = self.sc_expr(sc);
+                    let op = ["+", "-", "*"][self.r.pick(3)];
+                    if self.r.flag() {
+                        out.push(format!("{w} := {r} {op} {c};"));
+                    } else {
+                        out.push(format!("{w} := {c} {op} {r};"));
+                    }
+                }
+                2 => {
+                    labels.push("faulting_initialiser".into());
+                    let a = self.sc_expr(sc);
+                    let b = self.sc_expr(sc);
+                    if self.r.flag() {
+                        labels.push("positional".into());
+                        out.push(format!("{w} := XFn({a}, {b});"));
+                    } else {
+                        labels.push("named".into());
+                        out.push(format!("{w} := XFn(b := {b}, a := {a});"));
+                    }
+                }
+                3 => {
+                    labels.push("named".into());
+                    labels.push("out_binding".into());
+                    labels.push("inout_binding".into());
+                    let a = self.sc_expr(sc);
+                    let o = self.sc_w(sc);
+                    let io = sc.locals[self.r.pick(sc.locals.len())].clone();
+                    if self.r.flag() {
+                        labels.push("default_omitted".into());
+                        out.push(format!("{w} := XOut(a := {a}, o => {o}, io := {io});"));
+                    } else {
+                        let d = self.sc_expr(sc);
+                        out.push(format!("{w} := XOut(a := {a}, d := {d}, o => {o}, io := {io});"));
+                    }
+                }
+                4 => {
+                    labels.push("positional".into());
+                    labels.push("out_binding".into());
+                    labels.push("inout_binding".into());
+                    let a = self.sc_expr(sc);
+                    let d = self.sc_expr(sc);
+                    let o = sc.locals[self.r.pick(sc.locals.len())].clone();
+                    let io = sc.locals[self.r.pick(sc.locals.len())].clone();
+                    out.push(format!("{w} := XOut({a}, {d}, {o}, {io});"));
+                }
+                5 => {
+                    labels.push("nested_argument".into());
+                    let a = self.sc_expr(sc);
+                    let b = self.sc_expr(sc);
+                    let c = self.sc_expr(sc);
+                    match self.r.pick(3) {
+                        0 => out.push(format!("{w} := XFn(XEn({a}), {b});")),
+                        1 => out.push(format!("{w} := MAX(XFn({a}, {b}), XEn({c}));")),
+                        _ => out.push(format!("{w} := XEn(XFn({a}, XEn({b})));")),
+                    }
+                }
+                6 => {
+                    labels.push("in_if_condition".into());
+                    let c = self.sc_en_call(sc, &mut labels);
+                    let r = self.sc_expr(sc);
+                    let r2 = self.sc_expr(sc);
+                    out.push(format!("IF {c} >= {r} THEN"));
+                    out.push(format!("  {w} := {r2};"));
+                    if self.r.flag() {
+                        let c2 = self.sc_en_call(sc, &mut labels);
+                        labels.push("in_elsif_condition".into());
+                        out.push(format!("ELSIF {c2} = {} THEN", self.sc_lit(sc.it)));
+                        out.push(format!("  {w} := {};", sc.readable[0]));
+                    }
+                    out.push("END_IF;".into());
+                }
+                7 => {
+                    labels.push("in_while_condition".into());
+                    let c = {
+                        // argument = the guard, so the call sees a changing input
+                        let (en, l) = self.sc_en(sc);
+                        labels.push(l.to_string());
+                        format!("XEn(EN := {en}, a := {})", sc.guard)
+                    };
+                    out.push(format!("{} := {};", sc.guard, int_lit(sc.it, 0)));
+                    out.push(format!("WHILE ({c} <= {}) AND ({} < {}) DO", int_lit(sc.it, 2), sc.guard, int_lit(sc.it, 3)));
+                    out.push(format!("  {} := {} + {};", sc.guard, sc.guard, int_lit(sc.it, 1)));
+                    out.push(format!("  {w} := {};", sc.readable[0]));
+                    out.push("END_WHILE;".into());
+                }
+                8 => {
+                    labels.push("in_for_header".into());
+                    let (en, l) = self.sc_en(sc);
+                    labels.push(l.to_string());
+                    let from = format!("XEn(EN := {en}, a := {})", int_lit(sc.it, 0));
+                    let to = if self.r.flag() {
+                        int_lit(sc.it, 3)
+                    } else {
+                        labels.push("in_for_bound".into());
+                        format!("XEn({})", int_lit(sc.it, 1))
+                    };
+                    out.push(format!("FOR {} := {from} TO {to} DO", sc.ctrl));
+                    out.push(format!("  {w} := MAX({}, {});", sc.readable[0], sc.ctrl));
+                    out.push("END_FOR;".into());
+                }
+                9 => {
+                    labels.push("in_case_selector".into());
+                    let c = self.sc_en_call(sc, &mut labels);
+                    let r = self.sc_expr(sc);
+                    out.push(format!("CASE {c} OF"));
+                    out.push(format!("  0: {w} := {};", sc.readable[0]));
+                    out.push(format!("  1, 2: {w} := {r};"));
+                    out.push("ELSE".into());
+                    out.push(format!("  {w} := {};", sc.locals[0]));
+                    out.push("END_CASE;".into());
+                }
+                10 => {
+                    labels.push("function_with_calls".into());
+                    let (en, l) = self.sc_en(sc);
+                    labels.push(format!("go_{l}"));
+                    let a = self.sc_expr(sc);
+                    if self.r.flag() {
+                        labels.push("named".into());
+                        out.push(format!("{w} := XMid(go := {en}, x := {a});"));
+                    } else {
+                        labels.push("positional".into());
+                        out.push(format!("{w} := XMid({en}, {a});"));
+                    }
+                }
+                11 => {
+                    labels.push("this_method".into());
+                    let (en, l) = self.sc_en(sc);
+                    labels.push(format!("go_{l}"));
+                    let a = self.sc_expr(sc);
+                    out.push(format!("{w} := THIS.Helper({en}, {a});"));
+                }
+                12 => {
+                    labels.push("super_method".into());
+                    let a = self.sc_expr(sc);
+                    out.push(format!("{w} := SUPER.Stp({a});"));
+                }
+                13 => {
+                    labels.push("fb_invocation".into());
+                    let a = self.sc_expr(sc);
+                    let (en, l) = self.sc_en(sc);
+                    labels.push(format!("go_{l}"));
+                    match self.r.pick(4) {
+                        0 => out.push("inner();".into()),
+                        1 => out.push(format!("inner(i := {a}, go := {en});")),
+                        2 => {
+                            labels.push("out_binding".into());
+                            out.push(format!("inner(i := {a}, go := {en}, o => {w});"));
+                        }
+                        _ => {
+                            labels.push("instance_output_read".into());
+                            out.push(format!("inner(go := {en});"));
+                            out.push(format!("{w} := inner.o;"));
+                        }
+                    }
+                }
+                _ => {
+                    labels.push("call_statement".into());
+                    let c = self.sc_en_call(sc, &mut labels);
+                    out.push(format!("{c};"));
+                }
+            }
+            for l in labels {
+                self.feat(&format!("call@{}:{}", sc.ctx, l));
+            }
+            self.feat(&format!("callctx:{}", sc.ctx));
+            self.sc_use(sc, &mut out);
+        }
+        out
+    }
+
     fn declare_pous(&mut self) {
         let mut p = String::new();
-        let mut vars = String::from("VAR\n");
-        let it = [T::DInt, T::Int, T::SInt, T::LInt, T::UInt][self.r.pick(5)];
+        let it = [T::DInt, T::Int, T::SInt, T::LInt, T::UInt, T::USInt, T::ULInt][self.r.weighted(&[4, 3, 2, 2, 2, 1, 1])];
         let n = it.name();
+        let one = int_lit(it, 1);
         let fault_exprs = |a: &str, b: &str, r: &mut Reader<'_>| -> String {
             match r.pick(5) {
                 0 => format!("{a} / {b}"),
@@ -1281,65 +1614,149 @@ impl<'t> Ext<'t> {
                 _ => format!("{a} - {b}"),
             }
         };
-        // --- FUNCTION with faulting local initialiser
+        let indent = |v: Vec<String>| -> String { v.into_iter().map(|l| format!("  {l}\n")).collect::<String>() };
+        let locals_decl = format!("  l1 : {n};\n  l2 : {n} := {one};\n  g : {n};\n  k : {n};\n  ok : BOOL;\n");
+        let mk_scope = |ctx: &'static str, inputs: &[&str], extra_w: &[&str], bools: &[&str], callables: &[&'static str]| -> CallScope {
+            let mut readable: Vec<String> = inputs.iter().map(|s| s.to_string()).collect();
+            readable.extend(["l1", "l2"].iter().map(|s| s.to_string()));
+            readable.extend(extra_w.iter().map(|s| s.to_string()));
+            let mut writable: Vec<String> = vec!["l1".into(), "l2".into()];
+            writable.extend(extra_w.iter().map(|s| s.to_string()));
+            CallScope {
+                ctx,
+                it,
+                readable,
+                writable,
+                locals: vec!["l1".into(), "l2".into()],
+                bools: bools.iter().map(|s| s.to_string()).collect(),
+                bool_w: vec!["ok".into()],
+                guard: "g".into(),
+                ctrl: "k".into(),
+                callables: callables.to_vec(),
+            }
+        };
+
+        // --- leaves
         let fe = fault_exprs("a", "b", &mut self.r);
         p.push_str(&format!(
             "FUNCTION XFn : {n}\nVAR_INPUT\n  a : {n};\n  b : {n};\nEND_VAR\nVAR\n  t : {n} := {fe};\nEND_VAR\n  XFn := t;\nEND_FUNCTION\n\n"
         ));
-        // --- FUNCTION with EN / ENO
+        let en_body = if self.r.chance(1, 3) { format!("a + {one}") } else { "a".to_string() };
         p.push_str(&format!(
-            "FUNCTION XEn : {n}\nVAR_INPUT\n  EN : BOOL;\n  a : {n};\nEND_VAR\nVAR_OUTPUT\n  ENO : BOOL;\nEND_VAR\n  XEn := a + {};\nEND_FUNCTION\n\n",
-            int_lit(it, 1)
+            "FUNCTION XEn : {n}\nVAR_INPUT\n  EN : BOOL;\n  a : {n};\nEND_VAR\nVAR_OUTPUT\n  ENO : BOOL;\nEND_VAR\n  XEn := {en_body};\nEND_FUNCTION\n\n"
         ));
-        // --- class with a method (faulting local, THIS)
+        let dflt = self.sc_lit(it);
+        p.push_str(&format!(
+            "FUNCTION XOut : {n}\nVAR_INPUT\n  a : {n};\n  d : {n} := {dflt};\nEND_VAR\nVAR_OUTPUT\n  o : {n};\nEND_VAR\nVAR_IN_OUT\n  io : {n};\nEND_VAR\n  o := a;\n  io := d;\n  XOut := MAX(a, d);\nEND_FUNCTION\n\n"
+        ));
+
+        // --- functions with calls inside: XMid (depth 1 from Main, depth 2 via XTop), XTop
+        let sc = mk_scope("function:d2", &["x"], &["XMid"], &["go"], &["XEn", "XFn", "XOut"]);
+        let nu = 1 + self.r.pick(4);
+        let body = self.call_units(&sc, nu);
+        p.push_str(&format!(
+            "FUNCTION XMid : {n}\nVAR_INPUT\n  go : BOOL;\n  x : {n};\nEND_VAR\nVAR\n{locals_decl}END_VAR\n  XMid := x;\n{}  XMid := MAX(l1, x);\nEND_FUNCTION\n\n",
+            indent(body)
+        ));
+        let sc = mk_scope("function:d1", &["x"], &["XTop"], &["go"], &["XEn", "XFn", "XOut", "XMid"]);
+        let nu = 1 + self.r.pick(4);
+        let body = self.call_units(&sc, nu);
+        p.push_str(&format!(
+            "FUNCTION XTop : {n}\nVAR_INPUT\n  go : BOOL;\n  x : {n};\nEND_VAR\nVAR\n{locals_decl}END_VAR\n  XTop := x;\n{}  XTop := MIN(l2, x);\nEND_FUNCTION\n\n",
+            indent(body)
+        ));
+
+        // --- class: Helper (method, depth 2 via Bump), Bump (method, depth 1; faulting local)
+        let sc = mk_scope("method:d2", &["x", "n"], &["Helper"], &["go"], &["XEn", "XFn", "XOut"]);
+        let nu = 1 + self.r.pick(3);
+        let helper = self.call_units(&sc, nu);
+        let sc = mk_scope("method:d1", &["d", "n"], &["Bump", "loc"], &[], &["XEn", "XFn", "XOut", "XMid", "THIS.Helper"]);
+        let nu = 1 + self.r.pick(3);
+        let bump = self.call_units(&sc, nu);
         let me = fault_exprs("n", "d", &mut self.r);
+        let n_init = self.sc_lit(it);
         p.push_str(&format!(
-            "CLASS XCls\nVAR PUBLIC\n  n : {n} := {};\nEND_VAR\nMETHOD PUBLIC Bump : {n}\nVAR_INPUT\n  d : {n};\nEND_VAR\nVAR\n  loc : {n} := {me};\nEND_VAR\n  n := loc;\n  Bump := THIS.n;\nEND_METHOD\nEND_CLASS\n\n",
-            self.lit(it)
+            "CLASS XCls\nVAR PUBLIC\n  n : {n} := {n_init};\nEND_VAR\nMETHOD PUBLIC Helper : {n}\nVAR_INPUT\n  go : BOOL;\n  x : {n};\nEND_VAR\nVAR\n{locals_decl}END_VAR\n  Helper := x;\n{}  Helper := MAX(l2, x);\nEND_METHOD\nMETHOD PUBLIC Bump : {n}\nVAR_INPUT\n  d : {n};\nEND_VAR\nVAR\n  loc : {n} := {me};\n{locals_decl}END_VAR\n  Bump := d;\n{}  n := loc;\n  Bump := THIS.n;\nEND_METHOD\nEND_CLASS\n\n",
+            indent(helper),
+            indent(bump)
         ));
-        // --- FB hierarchy: base with VAR_TEMP initialiser and method, derived with SUPER
+
+        // --- FB hierarchy: XBase body (FB body, depth 1 from Main / 2 via XOuter) with
+        // VAR_TEMPs read and written after the calls; method Stp (depth 1 / 2 via SUPER)
+        let sc = mk_scope("method:d2:super", &["d", "acc"], &["Stp"], &["go"], &["XEn", "XFn", "XOut"]);
+        let nu = 1 + self.r.pick(3);
+        let stp = self.call_units(&sc, nu);
+        let sc = mk_scope("fb_body:d2", &["i", "acc"], &["tmp", "t2", "o"], &["go"], &["XEn", "XFn", "XOut", "XMid"]);
+        let nu = 1 + self.r.pick(4);
+        let base_body = self.call_units(&sc, nu);
         let te = fault_exprs("i", "acc", &mut self.r);
-        let init_acc = self.lit(it);
+        let init_acc = self.sc_lit(it);
         p.push_str(&format!(
-            "FUNCTION_BLOCK XBase\nVAR_INPUT\n  i : {n};\nEND_VAR\nVAR_OUTPUT\n  o : {n};\nEND_VAR\nVAR PUBLIC\n  acc : {n} := {init_acc};\nEND_VAR\nVAR_TEMP\n  tmp : {n} := {te};\nEND_VAR\nMETHOD PUBLIC Stp : {n}\nVAR_INPUT\n  d : {n};\nEND_VAR\n  acc := acc + d;\n  Stp := acc;\nEND_METHOD\n  o := tmp;\n  acc := acc + {};\nEND_FUNCTION_BLOCK\n\n",
-            int_lit(it, 1)
+            "FUNCTION_BLOCK XBase\nVAR_INPUT\n  i : {n};\n  go : BOOL;\nEND_VAR\nVAR_OUTPUT\n  o : {n};\nEND_VAR\nVAR PUBLIC\n  acc : {n} := {init_acc};\nEND_VAR\nVAR\n{locals_decl}END_VAR\nVAR_TEMP\n  tmp : {n} := {te};\n  t2 : {n};\nEND_VAR\nMETHOD PUBLIC Stp : {n}\nVAR_INPUT\n  d : {n};\nEND_VAR\nVAR\n  l1 : {n};\n  l2 : {n} := {one};\n  g : {n};\n  k : {n};\n  ok : BOOL;\nEND_VAR\n  Stp := d;\n{}  acc := acc + d;\n  Stp := acc;\nEND_METHOD\n{}  o := tmp;\n  t2 := i;\n  acc := acc + {one};\nEND_FUNCTION_BLOCK\n\n",
+            indent(stp),
+            indent(base_body)
         ));
+        let sc = mk_scope("method:d1", &["d", "acc"], &["Stp"], &["go"], &["XEn", "XFn", "XOut", "XMid", "SUPER.Stp"]);
+        let nu = 1 + self.r.pick(3);
+        let der = self.call_units(&sc, nu);
         p.push_str(&format!(
-            "FUNCTION_BLOCK XDer EXTENDS XBase\nMETHOD PUBLIC OVERRIDE Stp : {n}\nVAR_INPUT\n  d : {n};\nEND_VAR\n  Stp := SUPER.Stp(d) * {};\nEND_METHOD\nMETHOD PUBLIC Peek : {n}\n  Peek := THIS.acc;\nEND_METHOD\nEND_FUNCTION_BLOCK\n\n",
+            "FUNCTION_BLOCK XDer EXTENDS XBase\nMETHOD PUBLIC OVERRIDE Stp : {n}\nVAR_INPUT\n  d : {n};\nEND_VAR\nVAR\n  l1 : {n};\n  l2 : {n} := {one};\n  g : {n};\n  k : {n};\n  ok : BOOL;\nEND_VAR\n  Stp := d;\n{}  Stp := SUPER.Stp(d) * {};\n  l1 := d;\n  Stp := MAX(Stp, l1);\nEND_METHOD\nMETHOD PUBLIC Peek : {n}\n  Peek := THIS.acc;\nEND_METHOD\nEND_FUNCTION_BLOCK\n\n",
+            indent(der),
             int_lit(it, 2)
         ));
-        vars.push_str("  xcls : XCls;\n  xfb : XBase;\n  xder : XDer;\n  xtfb : XBase;\n  xeno : BOOL;\n");
+        // --- XOuter: FB body (depth 1) invoking a nested instance (XBase body at depth 2),
+        // method Run (depth 1) invoking it too
+        let sc = mk_scope("method:d1:fb", &["d", "i"], &["Run", "st"], &["go"], &["XEn", "XFn", "XOut", "inner"]);
+        let nu = 1 + self.r.pick(3);
+        let run = self.call_units(&sc, nu);
+        let sc = mk_scope("fb_body:d1", &["i", "st"], &["t2", "o"], &["go"], &["XEn", "XFn", "XOut", "XMid", "inner"]);
+        let nu = 1 + self.r.pick(4);
+        let outer_body = self.call_units(&sc, nu);
+        p.push_str(&format!(
+            "FUNCTION_BLOCK XOuter\nVAR_INPUT\n  i : {n};\n  go : BOOL;\nEND_VAR\nVAR_OUTPUT\n  o : {n};\nEND_VAR\nVAR PUBLIC\n  st : {n};\nEND_VAR\nVAR\n  inner : XBase;\n{locals_decl}END_VAR\nVAR_TEMP\n  t2 : {n};\nEND_VAR\nMETHOD PUBLIC Run : {n}\nVAR_INPUT\n  d : {n};\nEND_VAR\nVAR\n  l1 : {n};\n  l2 : {n} := {one};\n  g : {n};\n  k : {n};\n  ok : BOOL;\nEND_VAR\n  Run := d;\n{}  Run := MAX(l1, d);\nEND_METHOD\n{}  o := MAX(t2, i);\n  st := l1;\nEND_FUNCTION_BLOCK\n\n",
+            indent(run),
+            indent(outer_body)
+        ));
+
+        let mut vars = String::from("VAR\n");
+        vars.push_str("  xcls : XCls;\n  xfb : XBase;\n  xder : XDer;\n  xtfb : XBase;\n  xouter : XOuter;\n  xeno : BOOL;\n");
         vars.push_str("END_VAR\n");
         self.out.prelude.push_str(&p);
         self.out.main_vars.push_str(&vars);
         self.out.features.push("oop".into());
 
-        // statements using them
-        let mut uses: Vec<String> = Vec::new();
+        // ---- Main: statements entering the web (go from Main's BOOL variables, which the
+        // trace writes; constants; computed)
         let res: Vec<String> = self
             .vars
             .iter()
-            .filter(|v| v.ty == it && v.writable && v.name.starts_with('x'))
+            .filter(|v| v.ty == it && v.writable && v.name.starts_with('x') && !v.name.starts_with("xat"))
             .map(|v| v.name.clone())
             .collect();
         if res.is_empty() {
             return;
         }
-        let pick_res = |r: &mut Reader<'_>| res[r.pick(res.len())].clone();
-        let k = 2 + self.r.pick(5);
+        let bools: Vec<String> = self.vars.iter().filter(|v| v.ty == T::Bool && v.name.starts_with("xbool")).map(|v| v.name.clone()).collect();
+        let mut uses: Vec<String> = Vec::new();
+        let k = 3 + self.r.pick(6);
         for _ in 0..k {
-            let target = pick_res(&mut self.r);
+            let target = res[self.r.pick(res.len())].clone();
             let a = self.expr(it, 1);
             let b = self.expr(it, 1);
-            let s = match self.r.pick(8) {
+            let go = match self.r.weighted(&[3, 2, if bools.is_empty() { 0 } else { 4 }, 2]) {
+                0 => "FALSE".to_string(),
+                1 => "TRUE".to_string(),
+                2 => bools[self.r.pick(bools.len())].clone(),
+                _ => self.expr(T::Bool, 1),
+            };
+            let s = match self.r.pick(14) {
                 0 => {
                     self.feat("call:function_faulting_local");
                     format!("{target} := XFn({a}, {b});")
                 }
                 1 => {
                     self.feat("call:en_eno");
-                    let en = self.expr(T::Bool, 1);
-                    format!("{target} := XEn(EN := {en}, a := {a}, ENO => xeno);")
+                    format!("{target} := XEn(EN := {go}, a := {a}, ENO => xeno);")
                 }
                 2 => {
                     self.feat("call:class_method_this");
@@ -1347,7 +1764,7 @@ impl<'t> Ext<'t> {
                 }
                 3 => {
                     self.feat("call:fb_var_temp");
-                    format!("xfb(i := {a}, o => {target});")
+                    format!("xfb(i := {a}, go := {go}, o => {target});")
                 }
                 4 => {
                     self.feat("call:method_super");
@@ -1355,20 +1772,43 @@ impl<'t> Ext<'t> {
                 }
                 5 => {
                     self.feat("call:fb_derived");
-                    { let _ = &a; "xder();".to_string() }
+                    "xder();".to_string()
                 }
                 6 => {
                     self.feat("call:method_this");
                     format!("{target} := xder.Peek();")
                 }
-                _ => {
+                7 => {
                     self.feat("call:named_function");
                     format!("{target} := XFn(b := {b}, a := {a});")
                 }
+                8 | 9 => {
+                    self.feat("call:function_depth2");
+                    format!("{target} := XTop(go := {go}, x := {a});")
+                }
+                10 => {
+                    self.feat("call:function_depth1");
+                    format!("{target} := XMid({go}, {a});")
+                }
+                11 => {
+                    self.feat("call:fb_nested_instance");
+                    format!("xouter(i := {a}, go := {go}, o => {target});")
+                }
+                12 => {
+                    self.feat("call:method_invoking_fb");
+                    format!("{target} := xouter.Run({a});")
+                }
+                _ => {
+                    self.feat("call:class_helper_direct");
+                    format!("{target} := xcls.Helper({go}, {a});")
+                }
             };
             uses.push(s);
+            // Main, too, keeps using its own variables after the call
+            let t2 = res[self.r.pick(res.len())].clone();
+            uses.push(format!("{t2} := {target};"));
         }
-        // the task-associated instance gets its input from Main
+        // the task-associated instance gets its state from Main
         if self.cfg.task_fb && self.r.chance(1, 2) {
             self.out.task_fb = Some("xtfb".into());
             self.feat("task_fb");
@@ -1377,7 +1817,11 @@ impl<'t> Ext<'t> {
         } else if !self.cfg.task_fb {
             self.excl("F7-task-FB-with-faulting-VAR_TEMP-initialiser");
         }
-        self.out.post.extend(uses);
+        // half of the entering statements run before the base program's body
+        let split = self.r.pick(uses.len() / 2 + 1) * 2;
+        let tail = uses.split_off(split.min(uses.len()));
+        self.out.pre.extend(uses);
+        self.out.post.extend(tail);
     }
 
     // ------------------------------------------------------------------ statements
@@ -1547,6 +1991,18 @@ impl<'t> Ext<'t> {
     pub fn generate(mut self, base_vars: &[(String, T, bool)]) -> ExtOut {
         self.declare_vars(base_vars);
         self.declare_at_vars();
+        // The call web comes FIRST: it is the longest consumer of the tape, and a reader
+        // that has run out of tape answers 0 to every choice (always the same call shape).
+        let mut web_pre: Vec<String> = Vec::new();
+        let mut web_post: Vec<String> = Vec::new();
+        if self.r.chance(3, 4) {
+            self.declare_pous();
+            web_pre = std::mem::take(&mut self.out.pre);
+            web_post = std::mem::take(&mut self.out.post);
+        }
+        if self.r.exhausted() {
+            self.feat("tape_exhausted_after_call_web");
+        }
         let n = self.r.pick(self.cfg.max_stmts + 1);
         let n_pre = self.r.pick(n + 1);
         let mut pre = Vec::new();
@@ -1558,10 +2014,12 @@ impl<'t> Ext<'t> {
         for _ in n_pre..n {
             self.stmt(&mut post);
         }
+        pre.extend(web_pre);
+        post.extend(web_post);
         self.out.pre = pre;
         self.out.post = post;
-        if self.r.chance(2, 3) {
-            self.declare_pous();
+        if self.r.exhausted() {
+            self.feat("tape_exhausted");
         }
         self.out
     }
